@@ -32,13 +32,16 @@ func C02(run *core.Run) {
 		F *abs.Filter `json:"f"`
 		M []int       `json:"m"`
 	}
-	var rows []row
+	var rows, rows3 []row
+	var events3 []abs.Event
 	res, err := tlcrun.Run(tlcrun.Options{
 		Module: "MatchMC", Config: "MatchMC.cfg", Workers: 16, Timeout: 20 * time.Minute,
 		Consts: map[string]string{"Stride": fmt.Sprint(stride), "Offset": fmt.Sprint(offset)},
 		OnJSON: func(line string) {
 			var t struct {
-				Events []abs.Event `json:"events"`
+				Events  []abs.Event `json:"events"`
+				Events3 []abs.Event `json:"events3"`
+				I3      *int        `json:"i3"`
 				row
 			}
 			if err := json.Unmarshal([]byte(line), &t); err != nil {
@@ -47,6 +50,14 @@ func C02(run *core.Run) {
 			}
 			if t.Events != nil {
 				events = t.Events
+				return
+			}
+			if t.Events3 != nil {
+				events3 = t.Events3
+				return
+			}
+			if t.I3 != nil {
+				rows3 = append(rows3, t.row)
 				return
 			}
 			rows = append(rows, t.row)
@@ -86,6 +97,25 @@ func C02(run *core.Run) {
 					run.Violate(fmt.Sprintf("match:%s want=%v got=%v", describeFilters([]abs.Filter{*rw.F}), want[j+1], got),
 						fmt.Sprintf("filter %s event %+v: Nostr!Matches = %v, Match = %v, list Match = %v", rw.F.Key(), events[j], want[j+1], got, got2),
 						map[string]any{"filter": rw.F, "event": events[j]})
+				}
+			}
+		}
+		// the three-tag-name table
+		for _, rw := range rows3 {
+			want := map[int]bool{}
+			for _, j := range rw.M {
+				want[j] = true
+			}
+			m := mocrelay.NewReqFilterMatcher(conc.Filter(*rw.F))
+			for j, e := range events3 {
+				got := m.Match(conc.Event(e, ""))
+				run.Add("pairs_compared", 1)
+				if want[j+1] {
+					distinct.Add(fmt.Sprintf("t3 %d/%d", rw.I, j))
+				}
+				if got != want[j+1] {
+					run.Violate(fmt.Sprintf("match3:%s want=%v got=%v", describeFilters([]abs.Filter{*rw.F}), want[j+1], got),
+						fmt.Sprintf("filter %s event %+v: Nostr!Matches = %v, Match = %v", rw.F.Key(), e, want[j+1], got), map[string]any{"filter": rw.F, "event": e})
 				}
 			}
 		}
@@ -157,6 +187,7 @@ func C02(run *core.Run) {
 	for t := 0; t < nt; t++ {
 		g := NewGen(r, fmt.Sprintf("m%d_", t))
 		g.MaxTS = 6
+		g.Extreme = t%3 == 0
 		for i := 0; i < 6; i++ {
 			g.Event()
 		}
